@@ -53,6 +53,10 @@ type Feat struct {
 	// afterwards (deleted tags leave tombstones that occupy page slots): pages come back short or
 	// EMPTY and still carry Link rel="next" while directory entries follow. Tomb lists tags that
 	// were created and deleted before the history starts; EmptyNull answers an empty page with "tags":null.
+	// Order is the order in which the registry lists (and pages) tags: "" = byte order, "ci" =
+	// case-insensitive (the distribution spec's "lexical order"), "push" = order of first push,
+	// "rev" = reverse byte order. Link/last are handed out in that order.
+	Order     string `json:"order,omitempty"`
 	PageMode  string `json:"page_mode,omitempty"`
 	Tomb      []int  `json:"tomb,omitempty"`
 	EmptyNull bool   `json:"empty_null,omitempty"`
@@ -243,6 +247,7 @@ func gen(t *rapid.T) Case {
 			c.Feat.Delays = rapid.SliceOfN(rapid.SampledFrom([]int{0, 0, 30, 200}), 1, 5).Draw(t, "delays")
 		}
 		c.Feat.NoRepo404 = rapid.IntRange(0, 2).Draw(t, "no_repo_404") == 0
+		c.Feat.Order = rapid.SampledFrom([]string{"", "", "ci", "ci", "push", "rev"}).Draw(t, "list_order")
 		if rapid.IntRange(0, 2).Draw(t, "page_tomb") == 0 {
 			c.Feat.PageMode = "tomb"
 			c.Feat.TagPage = rapid.SampledFrom([]int{1, 1, 1, 2, 2, 3}).Draw(t, "tomb_page")
@@ -299,6 +304,7 @@ type env struct {
 	ntShared   bool
 	ntConc     bool
 	ntPaged    bool
+	lastOfPage string // evidence only: last live tag of the previous linked page
 	firstKnown *evid.Violation
 	explained  bool // the violation just returned is completely explained by one specific root cause
 }
@@ -372,8 +378,8 @@ func setup(c Case, ev *evid.Collector) (*env, error) {
 				r.Tags[Tags[se.Tag]] = pm.Digest
 			}
 		}
-		if c.Feat.PageMode == "tomb" {
-			e.tombIntercept()
+		if c.Feat.PageMode == "tomb" || c.Feat.Order != "" {
+			e.listIntercept()
 		}
 		e.base, err = ref.New(regHost + "/" + regRepo)
 		if err != nil {
@@ -388,46 +394,118 @@ func setup(c Case, ev *evid.Collector) (*env, error) {
 	return e, nil
 }
 
-// tombIntercept installs the "cut first, filter afterwards" tag listing: the page is cut
-// from the directory of every tag name that ever existed (live tags and tombstones of
-// deleted ones) by n / the page cap and "last"; deleted names are then dropped from the
-// page, and Link rel="next" is sent whenever directory entries follow the cut — so a page
-// may be short or empty and still have a successor. All of this is within the
+// listIntercept answers tags/list in the case's listing order and paging mode.
+//
+// Order: the registry keeps its tag directory in byte order, case-insensitive order, order
+// of first push or reverse byte order and pages through it in that order; Link rel="next"
+// carries the last directory entry of the page as "last" and the client has to follow it
+// as handed out.
+//
+// PageMode "tomb" (cut first, filter afterwards): the directory holds every tag name that
+// ever existed (live tags and tombstones of deleted ones); the page is cut from it first,
+// deleted names are dropped afterwards and Link rel="next" is sent whenever directory
+// entries follow the cut — a page may be short or empty and still have a successor.
+// Otherwise only live tags are paged (pages are full). All of this is within the
 // distribution spec (a page may hold fewer than n results; Link decides about more).
-func (e *env) tombIntercept() {
-	dir := map[string]bool{}
-	for _, i := range e.c.Feat.Tomb {
-		if i >= 0 && i < len(Tags) {
-			dir[Tags[i]] = true
+func (e *env) listIntercept() {
+	tomb := e.c.Feat.PageMode == "tomb"
+	known := map[string]bool{}
+	var dir []string // every name ever seen, in order of first appearance
+	add := func(t string) {
+		if !known[t] {
+			known[t] = true
+			dir = append(dir, t)
 		}
+	}
+	if tomb {
+		for _, i := range e.c.Feat.Tomb {
+			if i >= 0 && i < len(Tags) {
+				add(Tags[i])
+			}
+		}
+	}
+	for _, se := range e.c.Seed.Entries {
+		if se.Tag >= 0 {
+			add(Tags[se.Tag])
+		}
+	}
+	less := func(a, b string) bool { return a < b }
+	switch e.c.Feat.Order {
+	case "ci":
+		less = func(a, b string) bool {
+			la, lb := strings.ToLower(a), strings.ToLower(b)
+			if la != lb {
+				return la < lb
+			}
+			return a < b
+		}
+	case "rev":
+		less = func(a, b string) bool { return a > b }
 	}
 	e.h.Intercept = func(m *rm.Model, h *rm.Host, en *rm.Entry, req *http.Request) *rm.Resp {
 		repo, ok := h.Repos[regRepo]
 		if !ok {
 			return nil
 		}
-		for t := range repo.Tags { // called before every request is applied: no name is ever missed
-			dir[t] = true
+		// called before every request is applied: no name is ever missed (several new names at once
+		// cannot happen: one request creates at most one tag)
+		fresh := []string{}
+		for t := range repo.Tags {
+			if !known[t] {
+				fresh = append(fresh, t)
+			}
+		}
+		sort.Strings(fresh)
+		for _, t := range fresh {
+			add(t)
 		}
 		if en.Class != "tags-list" || en.Repo != regRepo {
 			return nil
 		}
-		names := make([]string, 0, len(dir))
-		for t := range dir {
-			names = append(names, t)
+		names := []string{}
+		for _, t := range dir {
+			if _, live := repo.Tags[t]; live || tomb {
+				names = append(names, t)
+			}
 		}
-		sort.Strings(names)
+		if e.c.Feat.Order != "push" {
+			sort.SliceStable(names, func(i, j int) bool { return less(names[i], names[j]) })
+		}
 		q := req.URL.Query()
 		n := e.c.Feat.TagPage
 		if v, err := strconv.Atoi(q.Get("n")); err == nil && v > 0 && (n <= 0 || v < n) {
 			n = v
 		}
 		if last := q.Get("last"); last != "" {
-			i := sort.SearchStrings(names, last)
-			if i < len(names) && names[i] == last {
-				i++
+			start := -1
+			for i, t := range names {
+				if t == last {
+					start = i + 1
+				}
 			}
-			names = names[i:]
+			if start < 0 {
+				start = 0
+				if e.c.Feat.Order != "push" {
+					for start < len(names) && !less(last, names[start]) {
+						start++
+					}
+				} else if known[last] {
+					// push order, the name is known but not listed (deleted, no tombstones kept): continue
+					// behind the names pushed before it
+					for i, t := range dir {
+						if t == last {
+							cnt := 0
+							for _, x := range dir[:i] {
+								if _, live := repo.Tags[x]; live {
+									cnt++
+								}
+							}
+							start = cnt
+						}
+					}
+				}
+			}
+			names = names[start:]
 		}
 		r := &rm.Resp{Status: 200, Header: http.Header{}, TruncateAt: -1}
 		if n > 0 && len(names) > n {
@@ -451,6 +529,12 @@ func (e *env) tombIntercept() {
 			case len(live) < len(names):
 				e.class("state:short-page-with-next-link")
 			}
+			if len(live) > 0 {
+				e.lastOfPage = live[len(live)-1]
+			}
+		}
+		if q.Get("last") != "" && len(live) > 0 && e.lastOfPage != "" && live[0] <= e.lastOfPage {
+			e.class("state:next-page-starts-bytewise-before-previous-end")
 		}
 		var body []byte
 		if len(live) == 0 && e.c.Feat.EmptyNull {
@@ -757,6 +841,22 @@ func (e *env) run(s Step, mod *model) opResult {
 		}
 		if s.Limit > 0 && len(rem) > s.Limit {
 			rem = rem[:s.Limit]
+		}
+		minCount := 0
+		if !e.lay && e.c.Feat.Order != "" {
+			// the registry lists in another order: which tags come first is its business; without
+			// "last" at least min(limit, all) tags must come back, with "last" only the subset and
+			// no-duplicate clauses are judged
+			rem = nil
+			if last == "" {
+				minCount = len(all)
+				if s.Limit > 0 && s.Limit < minCount {
+					minCount = s.Limit
+				}
+			}
+		}
+		if len(got) < minCount {
+			return opResult{viol: evid.V("list/taglist-missing-tag", "TagList(limit=%d) = %v holds fewer than min(limit, %d) tags (model tags %v, page cap %d, order %q)", s.Limit, got, len(all), all, e.c.Feat.TagPage, e.c.Feat.Order)}
 		}
 		seen := map[string]bool{}
 		for _, t := range got {
@@ -1356,6 +1456,9 @@ func check(c Case, ev *evid.Collector) (viol *evid.Violation) {
 		e.class(fmt.Sprintf("reg:tag-page-%d", c.Feat.TagPage))
 		if c.Feat.PageMode == "tomb" {
 			e.class("reg:paging-cut-first-filter-afterwards")
+		}
+		if c.Feat.Order != "" {
+			e.class("reg:list-order-" + c.Feat.Order)
 		}
 		if c.Feat.HeadNoDigest {
 			e.class("reg:head-no-digest")
